@@ -885,9 +885,8 @@ impl<'a, T: Elem + SatisfyTraits<Tr>, M: MemCaps, Tr: ?Sized + TrCaps> Cx<'a, T,
             Repl::Raws(ids) => {
                 let mut slots: Vec<RawSlot<T>> = monalloc::user_scope(|| ids.iter().map(|i| RawSlot::<T>::new(*i)).collect());
                 let iter = slots.iter_mut().map(|s| {
-                    let raw = unsafe { AnyValueRaw::new(s.ptr(), size_of::<T>(), TypeId::of::<T>()) };
                     s.consumed();
-                    raw
+                    unsafe { AnyValueRaw::new(s.ptr(), size_of::<T>(), TypeId::of::<T>()) }
                 });
                 let it = self.vec(v).splice(range, UserIter::new(iter, 0));
                 self.run_script(it, script, end);
@@ -924,11 +923,10 @@ impl<'a, T: Elem + SatisfyTraits<Tr>, M: MemCaps, Tr: ?Sized + TrCaps> Cx<'a, T,
                 let kk = *k;
                 let iter = slots.iter_mut().enumerate().map(move |(n, s)| {
                     let tid = if n == kk { TypeId::of::<Foreign>() } else { TypeId::of::<T>() };
-                    let raw = unsafe { AnyValueRaw::new(s.ptr(), size_of::<T>(), tid) };
                     if n != kk {
                         s.consumed();
                     }
-                    raw
+                    unsafe { AnyValueRaw::new(s.ptr(), size_of::<T>(), tid) }
                 });
                 let it = self.vec(v).splice(range, UserIter::new(iter, 0));
                 self.run_script(it, script, end);
